@@ -31,6 +31,16 @@ type wiring struct {
 	inAll    *ssa.Function
 	outAll   *ssa.Function
 	routines []*ssa.Function
+	group    []*ssa.Function // start and the helpers cut out of it
+}
+
+func (w *wiring) inGroup(fn *ssa.Function) bool {
+	for _, g := range w.group {
+		if g == fn {
+			return true
+		}
+	}
+	return false
 }
 
 // spawnArgCell maps a parameter of a named function that start spawns (and nothing else calls) to the variable of start whose
@@ -52,6 +62,14 @@ func timerUses(fn *ssa.Function) []timerUse {
 		if p, ok := cc.Args[0].(*ssa.Parameter); ok && cell == nil {
 			cell = spawnArgCell[p] // the timer variable of start handed to a named goroutine function at its only call site
 		}
+		// a parameter of a helper cut out of start, kept in a local of its own because a function literal captures it
+		if cell != nil {
+			if sts := an.CellStores(cell); len(sts) == 1 {
+				if p, ok := sts[0].(*ssa.Parameter); ok && spawnArgCell[p] != nil {
+					cell = spawnArgCell[p]
+				}
+			}
+		}
 		out = append(out, timerUse{Method: an.NameOf(cal), Cell: cell, Call: in})
 	})
 	return out
@@ -66,21 +84,76 @@ func newWiring(c *core.Ctx) *wiring {
 	if !c.Anchor("timer start function", w.start != nil, "(*Session).start", posOf(w.start)) {
 		return nil
 	}
-	an.AllInstrs(w.start, func(in ssa.Instruction) {
-		st, ok := in.(*ssa.Store)
-		if !ok {
-			return
+	// start together with the helpers cut out of it (see an.LogicalOwner)
+	w.group = []*ssa.Function{w.start}
+	for _, fn := range s.allFuncs() {
+		if fn.Parent() != nil || fn == w.start {
+			continue
 		}
-		al, ok := st.Addr.(*ssa.Alloc)
-		if !ok {
-			return
-		}
-		if ex, ok := st.Val.(*ssa.Extract); ok && ex.Index == 0 {
-			if call, ok := ex.Tuple.(*ssa.Call); ok && an.CalleeIs(&call.Call, "utils", "NewTimer") {
-				w.timers[al] = call
+		if owner, chain := an.LogicalOwner(fn); owner == w.start && len(chain) > 0 {
+			w.group = append(w.group, fn)
+			site := chain[len(chain)-1]
+			for i, a := range site.Call.Args {
+				if cell := an.CellOf(a); cell != nil && i < len(fn.Params) {
+					spawnArgCell[fn.Params[i]] = cell
+				}
 			}
 		}
-	})
+	}
+	// the NewTimer call a stored value comes from: directly, or as the one non-nil value a helper of the group returns there
+	var timerOrigin func(v ssa.Value, depth int) *ssa.Call
+	timerOrigin = func(v ssa.Value, depth int) *ssa.Call {
+		ex, ok := v.(*ssa.Extract)
+		if !ok || depth > 3 {
+			return nil
+		}
+		call, ok := ex.Tuple.(*ssa.Call)
+		if !ok {
+			return nil
+		}
+		if an.CalleeIs(&call.Call, "utils", "NewTimer") {
+			if ex.Index == 0 {
+				return call
+			}
+			return nil
+		}
+		cal := an.StaticCallee(&call.Call)
+		if cal == nil || !w.inGroup(cal) {
+			return nil
+		}
+		var origin *ssa.Call
+		paths, _ := an.EnumPaths(cal, 256)
+		for _, p := range paths {
+			if p.Return == nil || ex.Index >= len(p.ResVals) {
+				continue
+			}
+			rv := an.ResolveOnPath(p.ResVals[ex.Index], p)
+			if an.IsNilConst(rv) {
+				continue
+			}
+			o := timerOrigin(rv, depth+1)
+			if o == nil || origin != nil && o != origin {
+				return nil
+			}
+			origin = o
+		}
+		return origin
+	}
+	for _, gf := range w.group {
+		an.AllInstrs(gf, func(in ssa.Instruction) {
+			st, ok := in.(*ssa.Store)
+			if !ok {
+				return
+			}
+			al, ok := st.Addr.(*ssa.Alloc)
+			if !ok {
+				return
+			}
+			if call := timerOrigin(st.Val, 0); call != nil {
+				w.timers[al] = call
+			}
+		})
+	}
 	for _, r := range s.regs {
 		if r.Parent == w.start && r.Key == "ALL" {
 			if r.In {
@@ -90,33 +163,35 @@ func newWiring(c *core.Ctx) *wiring {
 			}
 		}
 	}
-	an.AllInstrs(w.start, func(in ssa.Instruction) {
-		if g, ok := in.(*ssa.Go); ok {
-			if f := an.StaticCallee(&g.Call); f != nil {
-				w.routines = append(w.routines, f)
-				if f.Parent() == nil {
-					// a named function: bind its parameters to start's variables if this go statement is its only use
-					uses := 0
-					for _, fn := range s.allFuncs() {
-						an.AllInstrs(fn, func(i2 ssa.Instruction) {
-							for _, op := range i2.Operands(nil) {
-								if op != nil && *op == ssa.Value(f) {
-									uses++
+	for _, gf := range w.group {
+		an.AllInstrs(gf, func(in ssa.Instruction) {
+			if g, ok := in.(*ssa.Go); ok {
+				if f := an.StaticCallee(&g.Call); f != nil {
+					w.routines = append(w.routines, f)
+					if f.Parent() == nil {
+						// a named function: bind its parameters to start's variables if this go statement is its only use
+						uses := 0
+						for _, fn := range s.allFuncs() {
+							an.AllInstrs(fn, func(i2 ssa.Instruction) {
+								for _, op := range i2.Operands(nil) {
+									if op != nil && *op == ssa.Value(f) {
+										uses++
+									}
 								}
-							}
-						})
-					}
-					if uses == 1 {
-						for i, a := range g.Call.Args {
-							if cell := an.CellOf(a); cell != nil && i < len(f.Params) {
-								spawnArgCell[f.Params[i]] = cell
+							})
+						}
+						if uses == 1 {
+							for i, a := range g.Call.Args {
+								if cell := an.CellOf(a); cell != nil && i < len(f.Params) {
+									spawnArgCell[f.Params[i]] = cell
+								}
 							}
 						}
 					}
 				}
 			}
-		}
-	})
+		})
+	}
 	c.Anchor("timers created in start", len(w.timers) == 2, fmt.Sprintf("%d NewTimer results stored in variables", len(w.timers)), w.start.Pos())
 	c.Anchor("timer goroutines", len(w.routines) == 2, fmt.Sprintf("%d go statements in start", len(w.routines)), w.start.Pos())
 	// every timer variable is assigned exactly once
@@ -468,7 +543,7 @@ func runC09(c *core.Ctx, o Options) {
 		H := "s.LogonSettings.HeartBtInt"
 		call := w.timers[cell]
 		ob := c.Ob("X2", "start", "probe period is time.Second × (HeartBtInt + max(1, HeartBtInt/20))", call.Pos())
-		paths, _ := an.EnumPaths(w.start, 4096)
+		paths, _ := an.EnumPathsX(w.start, 4096)
 		bad, n := "", 0
 		for _, p := range paths {
 			if !p.Passes(call) {
@@ -662,7 +737,7 @@ func checkCloseChain(c *core.Ctx, rule string) {
 	if c.Anchor("handler loop", run != nil, "DefaultHandler.Run", posOf(run)) {
 		// a select state receiving from h.ctx.Done() whose branch returns
 		okDone, retOnDone := false, false
-		ps, _ := an.EnumPaths(run, 512)
+		ps, _ := an.EnumPathsX(run, 512)
 		an.AllInstrs(run, func(in ssa.Instruction) {
 			sel, ok := in.(*ssa.Select)
 			if !ok {
@@ -916,17 +991,19 @@ func (w *wiring) checkTimerClosers(rule string) {
 func (w *wiring) checkStartAlwaysArms(rule string) {
 	c := w.s.c
 	var need []ssa.Instruction
-	an.AllInstrs(w.start, func(in ssa.Instruction) {
-		switch x := in.(type) {
-		case *ssa.Go:
-			need = append(need, x)
-		case *ssa.Call:
-			if an.CalleeIs(&x.Call, "utils", "NewTimer") {
+	for _, gf := range w.group {
+		an.AllInstrs(gf, func(in ssa.Instruction) {
+			switch x := in.(type) {
+			case *ssa.Go:
 				need = append(need, x)
+			case *ssa.Call:
+				if an.CalleeIs(&x.Call, "utils", "NewTimer") {
+					need = append(need, x)
+				}
 			}
-		}
-	})
-	paths, _ := an.EnumPaths(w.start, 4096)
+		})
+	}
+	paths, _ := an.EnumPathsX(w.start, 4096)
 	bad := ""
 	n := 0
 	for _, p := range paths {
